@@ -76,6 +76,25 @@ def r1(ctx: Ctx) -> RuleReport:
             for i, e in enumerate(n.targets[0].elts):
                 if isinstance(e, ast.Name):
                     rec[e.id] = (id(n.value), i)
+    # nested = _interpret_node(...);  nested[1] / nested[2], possibly through names:  a, b = nested[1], nested[2]
+    whole: Dict[str, int] = {}
+    for n in walk_local(fi.node):
+        if isinstance(n, ast.Assign) and len(n.targets) == 1 and isinstance(n.targets[0], ast.Name) and isinstance(n.value, ast.Call) and norm(n.value.func) == fi.name:
+            whole[n.targets[0].id] = id(n.value)
+            for i in range(3):
+                rec[f'{n.targets[0].id}[{i}]'] = (id(n.value), i)
+    for n in walk_local(fi.node):
+        if isinstance(n, ast.Assign) and len(n.targets) == 1:
+            pairs_ = []
+            if isinstance(n.targets[0], ast.Name):
+                pairs_ = [(n.targets[0], n.value)]
+            elif isinstance(n.targets[0], ast.Tuple) and isinstance(n.value, ast.Tuple) and len(n.targets[0].elts) == len(n.value.elts):
+                pairs_ = list(zip(n.targets[0].elts, n.value.elts))
+            for t_, v_ in pairs_:
+                if isinstance(t_, ast.Name) and isinstance(v_, ast.Subscript) and isinstance(v_.value, ast.Name) and v_.value.id in whole:
+                    oki, idx = try_fold(v_.slice)
+                    if oki and isinstance(idx, int) and len(ctx.cg.local_assigns(fi).get(t_.id, [])) == 1:
+                        rec[t_.id] = (whole[v_.value.id], idx)
     # a named result:  nested = _interpret_node(...);  nested.triples / nested.epidata
     rets_ = [n for n in walk_local(fi.node) if isinstance(n, ast.Return) and isinstance(n.value, ast.Call) and isinstance(n.value.func, ast.Name)]
     if rets_ and rets_[0].value.func.id in fi.module.classes:
@@ -122,6 +141,7 @@ def r1(ctx: Ctx) -> RuleReport:
     n_ops = sum(1 for v in ops.values() if v)
     # forward analysis: state = None (balanced) or the pending op; conflicts are collected
     problems: List[Tuple[int, str]] = []
+    unknown_pairs: List[Tuple[int, str]] = []
 
     def matches(a, b) -> bool:
         (s1, k1, t1), (s2, k2, t2) = a, b
@@ -159,10 +179,14 @@ def r1(ctx: Ctx) -> RuleReport:
                 if matches(pend, o):
                     outs.add(BAL)
                 else:
+                    unknown_src = any(t_[0] == 'rec' and t_[2] == -1 for t_ in (pend[2], o[2]))
                     if (n, pend, o) not in seen_problem:
                         seen_problem.add((n, pend, o))
-                        problems.append((n, f'`{Tn if pend[0] == "T" else En}.{pend[1]}({pend[2][1] if pend[2][0] == "one" else "…"})` '
-                                            f'is answered by `{norm(node.ast)[:70]}`'))
+                        if unknown_src and pend[0] != o[0] and pend[1] == o[1]:
+                            unknown_pairs.append((n, f'`{norm(node.ast)[:70]}` extends with a list whose origin is not recognised'))
+                        else:
+                            problems.append((n, f'`{Tn if pend[0] == "T" else En}.{pend[1]}({pend[2][1] if pend[2][0] == "one" else "…"})` '
+                                                f'is answered by `{norm(node.ast)[:70]}`'))
                     outs.add(BAL)
         for m, lab in cfg.succ[n]:
             # at loop heads and at the return the two lists must be level
@@ -184,6 +208,9 @@ def r1(ctx: Ctx) -> RuleReport:
             key = f'penman.layout:_interpret_node: {norm(nd.ast)[:80]}'
             # a problem is reported at the node that answers wrongly; attribute it to the T-op it answers
             rep.add(key, fi.loc(nd.ast), 'ok', 'paired with the same operation on the epidata list') if not bad else None
+    for n, msg in unknown_pairs:
+        nd = cfg.nodes[n]
+        rep.undecided(f'penman.layout:_interpret_node: {norm(nd.ast)[:80]}', fi.loc(nd.ast), msg)
     for n, msg in problems:
         nd = cfg.nodes[n]
         rep.violation(f'penman.layout:_interpret_node: {norm(nd.ast)[:80]}', fi.loc(nd.ast),
@@ -253,6 +280,24 @@ def r1(ctx: Ctx) -> RuleReport:
             isinstance(base, ast.Subscript) and isinstance(base.value, ast.Call) and norm(base.value.func) == fi.name
             and try_fold(base.slice) == (True, 2)))
         if not shape:
+            # `epidata.extend(_epis)` directly followed by `epidata[-1][1].append(POP)`: the last entry of the own list is then the last entry of the nested
+            # node (which is never empty: every node yields at least its instance triple)
+            blk_par = pm.get(id(pm.get(id(p))))
+            prev_ok = False
+            raw_ = p.func.value
+            if isinstance(raw_, ast.Subscript) and isinstance(raw_.value, ast.Subscript) and norm(raw_.value.value) == En \
+                    and try_fold(raw_.value.slice) == (True, -1) and try_fold(raw_.slice) == (True, 1):
+                for fld in ('body', 'orelse'):
+                    seq = getattr(blk_par, fld, None)
+                    stp = pm.get(id(p))
+                    if isinstance(seq, list) and stp in seq and seq.index(stp) > 0:
+                        prev = seq[seq.index(stp) - 1]
+                        if isinstance(prev, ast.Expr) and isinstance(prev.value, ast.Call) and _recv_call(prev.value, 'extend') == En and prev.value.args \
+                                and rec.get(norm(prev.value.args[0]), (0, 0))[1] == 2:
+                            prev_ok = True
+            if prev_ok:
+                rep.ok(key, fi.loc(p), f'{En}[-1][1] right after {En}.extend(<markers of the nested node>)')
+                continue
             rep.undecided(key, fi.loc(p), norm(recv)[:60])
             continue
         ok_i, idx = try_fold(recv.value.slice)
@@ -1139,6 +1184,11 @@ def r47(ctx: Ctx) -> RuleReport:
                     unproven, sorted_ = s[0] == 'U', s.endswith('S')
                     if node.kind == 'stmt' and isinstance(node.ast, ast.Assign) and tn in assigned_names(node.ast):
                         v = node.ast.value
+                        # top = g.top if top is None else top   (either way round)
+                        if isinstance(v, ast.IfExp) and norm(v.test).replace(' ', '') in (f'{tn}isNone', f'{tn}isnotNone'):
+                            none_arm, other_arm = (v.body, v.orelse) if norm(v.test).replace(' ', '') == f'{tn}isNone' else (v.orelse, v.body)
+                            if isinstance(other_arm, ast.Name) and other_arm.id == tn:
+                                v = none_arm
                         if isinstance(v, ast.Attribute) and v.attr == 'top' and not sorted_:
                             unproven = False
                         elif isinstance(v, ast.Attribute) and v.attr == 'top' and isinstance(v.value, ast.Name) and v.value.id == gp:
